@@ -36,9 +36,9 @@ def caarSrc : Datum :=
 def listSrc : Datum :=
   L [S "define", LT [S "list"] (S "l"), S "l"]
 
-/-- model: `Store.length` -/
+/-- model: `Store.length` / `Store.lengthCount` (the `letrec`-bound `count`) -/
 def lengthSrc : Datum :=
-  L [S "define", L [S "length", S "list"], L [S "cond", L [L [S "null?", S "list"], N 0], L [S "else", L [S "+", L [S "length", L [S "cdr", S "list"]], N 1]]]]
+  L [S "define", L [S "length", S "list"], L [S "letrec", L [L [S "count", L [S "lambda", L [S "fast", S "slow", S "n"], L [S "cond", L [L [S "null?", S "fast"], S "n"], L [L [S "null?", L [S "cdr", S "fast"]], L [S "+", S "n", N 1]], L [L [S "eq?", L [S "cdr", L [S "cdr", S "fast"]], L [S "cdr", S "slow"]], L [S "cdr", L [S "quote", S "circular-list"]]], L [S "else", L [S "count", L [S "cdr", L [S "cdr", S "fast"]], L [S "cdr", S "slow"], L [S "+", S "n", N 2]]]]]]], L [S "count", S "list", S "list", N 0]]]
 
 /-- model: `Store.memq` = `mem eqTest` -/
 def memqSrc : Datum :=
@@ -74,11 +74,11 @@ def map1Src : Datum :=
 
 /-- model: `Store.map` / `Store.mapAll` -/
 def mapSrc : Datum :=
-  L [S "define", LT [S "map", S "f"] (S "xss"), L [S "letrec", L [L [S "map-all", L [S "lambda", L [S "xss"], L [S "if", L [S "any?", S "null?", S "xss"], L [S "quote", L []], L [S "cons", L [S "apply", S "f", L [S "map1", S "car", S "xss"]], L [S "map-all", L [S "map1", S "cdr", S "xss"]]]]]]], L [S "map-all", S "xss"]]]
+  L [S "define", LT [S "map", S "f", S "xs"] (S "xss"), L [S "letrec", L [L [S "map-all", L [S "lambda", L [S "xss"], L [S "if", L [S "any?", S "null?", S "xss"], L [S "quote", L []], L [S "cons", L [S "apply", S "f", L [S "map1", S "car", S "xss"]], L [S "map-all", L [S "map1", S "cdr", S "xss"]]]]]]], L [S "map-all", L [S "cons", S "xs", S "xss"]]]]
 
 /-- model: `Store.forEach` / `Store.forEachAll` -/
 def forEachSrc : Datum :=
-  L [S "define", LT [S "for-each", S "f"] (S "xss"), L [S "letrec", L [L [S "for-each-all", L [S "lambda", L [S "xss"], L [S "if", L [S "any?", S "null?", S "xss"], S "void", L [S "begin", L [S "apply", S "f", L [S "map1", S "car", S "xss"]], L [S "for-each-all", L [S "map1", S "cdr", S "xss"]], S "void"]]]]], L [S "for-each-all", S "xss"]]]
+  L [S "define", LT [S "for-each", S "f", S "xs"] (S "xss"), L [S "letrec", L [L [S "for-each-all", L [S "lambda", L [S "xss"], L [S "if", L [S "any?", S "null?", S "xss"], S "void", L [S "begin", L [S "apply", S "f", L [S "map1", S "car", S "xss"]], L [S "for-each-all", L [S "map1", S "cdr", S "xss"]], S "void"]]]]], L [S "for-each-all", L [S "cons", S "xs", S "xss"]]]]
 
 def sourceOf : String → Option Datum
   | "caar" => some caarSrc
